@@ -152,7 +152,7 @@ package server
 //@   ensures conf.Timers.State.NegotiatedHoldTime == (float64(body.HoldTime) > conf.Timers.Config.HoldTime ? conf.Timers.Config.HoldTime : float64(body.HoldTime))
 //@   ensures conf.Timers.State.KeepaliveInterval == (conf.Timers.State.NegotiatedHoldTime < conf.Timers.Config.HoldTime ? conf.Timers.State.NegotiatedHoldTime / 3 : conf.Timers.Config.KeepaliveInterval)
 //@ func (*fsm).stateChange
-//@   tag C08 C12 C07
+//@   tag C08 C12 C07 C14
 //@   claims at-call at-return step
 // "kept ... until the per-family long-lived timer expires": that a family's long-lived timer has run out is a fact about
 // ONE loss - with the OPEN of a new session every family starts over, or the first timer to expire in a later cycle
@@ -177,6 +177,11 @@ package server
 // long-lived variant, and the N bit) is in force only if the OPEN just received carries the capability; what an
 // earlier session on this neighbour negotiated does not carry over
 //@   at-call fsm.gConf.IsConfederationMember( requires (conf.GracefulRestart.State.Enabled ==> conf.GracefulRestart.Config.Enabled && ok) && (conf.GracefulRestart.State.NotificationEnabled ==> ok) && (conf.GracefulRestart.State.LongLivedEnabled ==> ok && ok2)
+
+// from C14 "the form sent to a 2-octet-AS peer": whether a session speaks 2-octet AS numbers is decided by the OPENs of
+// THIS session - when the peer has announced the 4-octet capability and the local side is looked at, nothing is left
+// of the mode an earlier session on this neighbour ran in
+//@   at-call ^func() bool { requires !fsm.twoByteAsTrans && has(fsm.capMap, bgp.BGP_CAP_FOUR_OCTET_AS_NUMBER)
 
 // from C08: "the OPEN sent reflects the configuration (AS_TRANS for 4-octet local AS)"
 //@ func buildopen
